@@ -1018,6 +1018,7 @@ static int service_call(void)
 void w_run(long budget, long stall_n)
 {
         int g, i, k, s, last = -99, okrun = 0, lp = -2, lb = -2, lh = -2;
+        long refused_locks_in_a_row = 0;
         long idle = 0, stalls = 0;
         const char *why = "budget";
 
@@ -1092,10 +1093,17 @@ void w_run(long budget, long stall_n)
                 }
                 if (s == CAT_STATUS_ERROR_MUTEX_LOCK) {
                         /* the call did nothing: it does not count as a step, so a faulty run keeps the schedule of the
-                         * fault-free one (C16 differential); fail sets are finite */
+                         * fault-free one (C16 differential); fail sets are finite - a lock that is refused for ever (it was
+                         * never released by an earlier call) ends the run */
+                        if (++refused_locks_in_a_row > 4000) {
+                                why = "lock-refused-for-ever";
+                                stepno++;
+                                break;
+                        }
                         stepno--;
                         continue;
                 }
+                refused_locks_in_a_row = 0;
                 monitors_after_step();
                 if (flags & WF_SAMPLE) {
                         const struct cat_command *pc = cat_get_processed_command(at, CAT_FSM_TYPE_UNSOLICITED);
